@@ -284,7 +284,16 @@ def equivalent(r1, r2):
         acc1 = a in d1.accept if a is not None else False
         acc2 = b in d2.accept if b is not None else False
         if acc1 != acc2:
-            return False, (word, "first accepts" if acc1 else "second accepts")
+            # first position at which one automaton has left its language's prefixes
+            x, y = d1.start, d2.start
+            div = len(word)
+            for i, sym in enumerate(word):
+                x = d1.trans.get((x, sym)) if x is not None else None
+                y = d2.trans.get((y, sym)) if y is not None else None
+                if x is None or y is None:
+                    div = i
+                    break
+            return False, (word[: div + 1], ("only the first allows this next symbol" if (y is None and x is not None) else "only the second allows this next symbol") if div < len(word) else ("first accepts here, second does not" if acc1 else "second accepts here, first does not"))
         for sym in d1.alphabet:
             na = d1.trans.get((a, sym)) if a is not None else None
             nb = d2.trans.get((b, sym)) if b is not None else None
